@@ -16,7 +16,17 @@ func (c *FnCtx) evalCall(st *State, call *ast.CallExpr) []*Term {
 	if name := c.callOrd[call]; name != "" && c.contract != nil {
 		if ls := c.contract.Inspects[name]; ls != nil {
 			for k, a := range ls.Asserts {
-				g := c.specEvalAt(st, a.Expr, map[string]*Term{}, c.pre, call)
+				env := map[string]*Term{}
+				if strings.Contains(a.Text, "$arg") {
+					// $arg0, $arg1, ...: the values of the call's arguments
+					for i, ae := range call.Args {
+						if _, isLit := ast.Unparen(ae).(*ast.FuncLit); isLit {
+							continue
+						}
+						env[fmt.Sprintf("$arg%d", i)] = c.eval(st, ae)
+					}
+				}
+				g := c.specEvalAt(st, a.Expr, env, c.pre, call)
 				c.oblige(st, "assert", call, fmt.Sprintf("%s.%d", name, k+1), a.Text, g)
 				st.assume(g)
 			}
